@@ -105,6 +105,11 @@ SCRIPTS = {
     "accented": "éèêëàâäôöùûüçñáíóúÅåØøßÆæ ",
     "astral": "😀🏠🔥🌡💡🚿🛁",
     "bmp3": "€中日本語한글ไทย₪✓",          # three-byte UTF-8
+    # text that a "harmless" normalisation, case folding or stripping would change: combining sequences and
+    # singletons (NFC/NFD), compatibility forms (NFKC), characters whose case mapping changes length, blanks
+    "unstable": ["e\u0301", "A\u030a", "\u2126", "\u212b", "\u212a", "\ufb2a", "\ufb01", "\u0130", "\u00df", "\u1e9e",
+                 "\u01c4", "\u00b5", "\u017f", "\u05e9\u05bc\u05c1\u05b8", "\u1100\u1161", "\u0958", "\u00a0", "\u200b",
+                 "\u200f", "\ufeff", "\t", " ", "x", "Q", "0"],
 }
 
 
@@ -126,11 +131,16 @@ def gen_name(rng) -> str:
         alpha = SCRIPTS["accented"]
     elif s < 0.82:
         alpha = SCRIPTS["astral"]
-    elif s < 0.9:
+    elif s < 0.88:
         alpha = SCRIPTS["bmp3"]
+    elif s < 0.94:
+        alpha = SCRIPTS["unstable"]
     else:
         alpha = SCRIPTS["ascii"] + SCRIPTS["hebrew"] + SCRIPTS["accented"] + SCRIPTS["astral"] + SCRIPTS["bmp3"]
     name = "".join(rng.choice(alpha) for _ in range(n))
+    if rng.random() < 0.05 and name:
+        # blanks at either end (a name is not the library's to trim)
+        name = rng.choice([" ", "\t", "  ", ""]) + name + rng.choice([" ", "\t", "\n", ""])
     return name
 
 
